@@ -1,0 +1,28 @@
+//go:build verif
+
+package dhcp
+
+// Add-only verification hooks for property C09 (no packet from the network can
+// crash or hang the gateway).  Compiled only with `-tags verif`; nothing here
+// changes behaviour.
+
+import (
+	"net"
+
+	"github.com/insomniacslk/dhcp/dhcpv4"
+)
+
+// VerifC09Handle calls the packet handler that server4 invokes for every datagram.
+func (s *Server) VerifC09Handle(conn net.PacketConn, peer net.Addr, req *dhcpv4.DHCPv4) {
+	s.handleDHCP(conn, peer, req)
+}
+
+// VerifC09ParseOption82 calls the relay-agent-information parser.
+func VerifC09ParseOption82(req *dhcpv4.DHCPv4) *RelayAgentInfo { return parseOption82(req) }
+
+// VerifC09LeaseCount returns the number of leases held.
+func (s *Server) VerifC09LeaseCount() int {
+	s.leasesMu.RLock()
+	defer s.leasesMu.RUnlock()
+	return len(s.leases)
+}
